@@ -534,6 +534,13 @@ def inject(spec, text, contract, warnings, vac=False):
                 NOTICES.append('%s: loop header %r changed in the source (sidecar has %r #%d); annotation attached by kind and position' % (
                     fnm, [x[2] for x in src_loops if x[0] == i_][0], spec.loops[idx]['sig'], spec.loops[idx]['ord']))
             pairing, used = allp, used | fused
+    if len(pairing) < len(src_loops) and len(src_loops) == 1 and len(spec.loops) == 1:
+        # the function's ONLY loop has changed its kind (`while c {..}` <-> `loop { if !c { break } .. }`, `while let` <-> `loop { match }`):
+        # the annotation is still attached, but as a WARNING: if the obligations are discharged the function is verified, if one fails
+        # it is not trusted as a verdict (the proof may simply not fit the new shape)
+        pairing, used = {src_loops[0][0]: 0}, {0}
+        warnings.append('%s: its only loop changed kind (%r, sidecar has %r); annotation attached, a failure is not trusted' % (
+            fnm, src_loops[0][2], spec.loops[0]['sig']))
     newl = []
     src_at = dict((i_, (mm, sig_l, k)) for i_, mm, sig_l, k in src_loops)
     for i_, (l, m) in enumerate(blines):
